@@ -854,8 +854,7 @@ def inline_temporaries(func, known_locals):
                 for c in crossing:
                     for y in ast.walk(c):
                         if isinstance(y, (ast.Await, ast.Yield,
-                                          ast.YieldFrom, ast.AugAssign,
-                                          ast.Delete)) or (
+                                          ast.YieldFrom)) or (
                                 isinstance(y, (ast.Attribute, ast.Subscript))
                                 and isinstance(y.ctx, (ast.Store, ast.Del))):
                             moved = True
